@@ -1,0 +1,6 @@
+//go:build !verif
+// +build !verif
+
+package lorawan
+
+func verifHook(point string, uplink bool, cid CID, size int) {}
